@@ -7,6 +7,7 @@ package stage
 // specification under C18) and helpers to drive Prepare/Receive.
 
 import (
+	"os"
 	"path/filepath"
 	"time"
 
@@ -117,4 +118,11 @@ func (e *vEnv) sendPart(name, prev, hash string, size, beg, end int64, src strin
 	p := &sts.Partial{Name: name, Prev: prev, Size: size, Hash: hash, Source: "src",
 		Parts: []*sts.ByteRange{{Beg: beg, End: end}}}
 	return e.s.Receive(p, e.v.Reader(src, beg, end-beg))
+}
+
+// emptyDir removes the files of a directory (harness set-up).
+func emptyDir(v *verifrt.T, dir string) {
+	for _, f := range v.Files(dir) {
+		os.Remove(filepath.Join(dir, f))
+	}
 }
